@@ -73,7 +73,7 @@ Proof.
     { unfold s3. destruct (assigned && loie); simpl; [|repeat split; auto].
       destruct (primary s); simpl; [|repeat split; auto]. destruct (memk _ _); simpl; repeat split; auto. }
     destruct E3 as (Est & Efl & Eag & Ecn & Etk & Eva & Epe & Eco & Efu & Ecm).
-    apply (finish_lock_Inv [k] rv ce loie (lo_absent o) w s3
+    apply (finish_lock_Inv [k] rv ce loie (lo_absent o) w true s3
              (filter (fun p => (fst p =? k) && match snd p with Pess f' => f' <=? lf | Prew => false end
                                && memk k (kept loie (lo_absent o) [k])) st1)).
     + intros p Hp. rewrite Est in Hp. pose proof Hp as Hp0. apply Hst1 in Hp. destruct Hp as [(H1 & H2 & H3)|Hp].
